@@ -96,3 +96,69 @@ def r_sym(prog):
     if not obs:
         raise AnalysisBroken('R-SYM: no `r_info >> 8` in the object readers')
     return RuleResult('R-SYM', obs, 1, {})
+
+
+def next_keep(prog, floor=6):
+    """NEXT-KEEP (C20/C16): a store `A->next = B` does not drop the rest of a list.  Accepted: B is null; A is a node
+    allocated in the same function (its `next` is being initialised, e.g. a prepend); or a test of `A->next` against null
+    dominates the store (append behind the tail / create the missing successor).  Anything else overwrites a link that may
+    still lead to nodes (three object files on the command line: the middle one is no longer reachable)."""
+    from nk.cfg import dominators
+    obs = []
+    for fn in sorted(prog.functions(lambda f: f.file.startswith(('core/', 'common/', 'fileio/')) and f.blocks), key=lambda f: (f.file, f.line)):
+        dom = None
+        fresh = set()
+        for n in fn.nodes.values():
+            if n['k'] in ('BinaryOperator', 'DeclStmt'):
+                pass
+        for n in fn.nodes.values():
+            src = None
+            tgt = None
+            if n['k'] == 'BinaryOperator' and n.get('op') == '=':
+                t = strip(kids(n)[0])
+                if t['k'] == 'DeclRefExpr':
+                    tgt, src = t.get('d'), kids(n)[1]
+            elif n['k'] == 'DeclStmt':
+                for dd, i in zip([x for x in n.get('decls', ()) if x.get('init')], kids(n)):
+                    if any(x['k'] == 'CXXNewExpr' or (x['k'] == 'CallExpr' and (callee(x) or '').split('(')[0] in ('malloc', 'calloc'))
+                           for x in walk(i)):
+                        fresh.add(dd['d'])
+            if src is not None and any(x['k'] == 'CXXNewExpr' or (x['k'] == 'CallExpr' and (callee(x) or '').split('(')[0] in ('malloc', 'calloc'))
+                                       for x in walk(src)):
+                fresh.add(tgt)
+        k = 0
+        for n in sorted(fn.nodes.values(), key=lambda x: x['i']):
+            if n['k'] != 'BinaryOperator' or n.get('op') != '=':
+                continue
+            t = strip(kids(n)[0])
+            if t['k'] != 'MemberExpr' or t.get('n') != 'next':
+                continue
+            k += 1
+            construct = 'next-store#%d' % k
+            rhs = strip(kids(n)[1], casts=True)
+            base = strip(kids(t)[0], casts=True)
+            why = None
+            if rhs['k'] in ('CXXNullPtrLiteralExpr', 'GNUNullExpr') or const(rhs) == 0:
+                why = 'stores null'
+            elif base['k'] == 'DeclRefExpr' and base.get('d') in fresh:
+                why = 'the node was allocated in this function'
+            else:
+                if dom is None:
+                    dom = dominators(fn)
+                w = fn.block_of(n)
+                txt = show(t)
+                if w is not None:
+                    for b in dom[w[0]]:
+                        cn = fn.nodes.get(fn.blocks[b].get('cond')) if 'cond' in fn.blocks[b] else None
+                        if cn is not None and txt in show(cn) and any(
+                                x['k'] in ('CXXNullPtrLiteralExpr', 'GNUNullExpr') or const(x) == 0 for x in walk(cn)):
+                            why = 'dominated by the null test `%s`' % show(cn)[:40]
+            if why:
+                obs.append(Ob('NEXT-KEEP', fn.file, n['l'], fn.q, construct, DISCHARGED, '', why, False))
+            else:
+                obs.append(Ob('NEXT-KEEP', fn.file, n['l'], fn.q, construct, VIOLATED,
+                              '`%s` overwrites a link that no test shows to be null: the nodes behind %s are dropped from the '
+                              'list' % (show(n)[:60], show(base)[:30])))
+    if len(obs) < floor:
+        raise AnalysisBroken('NEXT-KEEP: only %d stores to a next link' % len(obs))
+    return RuleResult('NEXT-KEEP', obs, floor, {})
